@@ -531,11 +531,16 @@ impl<'a> Compiler<'a> {
         let card_byte_index = u32::try_from(self.program.bytecode.len())
             .expect("Expected bytecode length to fit into 32 bits");
         let nodeid_hash = self.current_index.as_handle();
-        self.program
-            .labels
-            .0
-            .insert(nodeid_hash, Label::new(card_byte_index))
-            .unwrap();
+        // card labels share the table with the labels of functions and closures, which calls jump
+        // through: a card whose index hashes to the handle of an earlier function must not
+        // replace that function's label (a call of the function would run the card)
+        if !self.program.labels.0.contains(nodeid_hash) {
+            self.program
+                .labels
+                .0
+                .insert(nodeid_hash, Label::new(card_byte_index))
+                .unwrap();
+        }
 
         match &card.body {
             CardBody::CompositeCard(comp) => {
